@@ -416,7 +416,7 @@ func (s *sim) drawConfig() {
 		nt.dropPm = []int{0, 10, 50, 150, 400}[c.Intn(5)]
 		nt.dupPm = []int{0, 20, 100, 300}[c.Intn(4)]
 	}
-	s.faultSteps = 2000 + 500*c.Intn(6)
+	s.faultSteps = 1000 + 500*c.Intn(5)
 	if s.p.Tier == "thorough" {
 		s.faultSteps *= 2
 	}
@@ -766,6 +766,7 @@ func (s *sim) probeEvent(n *node, e any) {
 		s.or.lockEvents(n, x.HRS, "unlock")
 	case cstypes.EventRelock:
 		r.Probe("relock")
+		s.or.lockEvents(n, x.HRS, "relock")
 	case cstypes.EventPolka:
 		r.Probe("polka")
 	case cstypes.EventNewValidBlock:
